@@ -29,10 +29,12 @@ class C04(Prop):
     }
     chunk = 40
     rule = ("seeded pools of 1-3 `an` queries (+ `the` variants) over shared variables with explicit domains; "
-            "histories of full / take-k-then-close / take-k-and-keep (dropped, parked+collected or resumed later) / "
-            "evaluate-with-the-j-th-user-callback-raising / `the` raising by design with the exception held / probe; "
-            "every probe compares the aged query with a never-evaluated twin pool built from the same spec over "
-            "the same objects. Non-trivial = a probe was judged after >= 1 abandoned or faulted evaluation that had "
+            "histories of full / take-k-then-close / take-k-and-keep (dropped, closed or parked+collected at a later "
+            "step) / evaluate-with-the-j-th-user-callback-raising (an and the) / `the` raising by design with the "
+            "exception held / probe; campaigns 'enumerated' and 'the_enumerated' execute, per sampled program, EVERY "
+            "cut point k in 0..R and EVERY fault point j in 1..N; campaign 'rules' uses rule heads and Add-conclusion "
+            "trees; every probe compares the aged query with a never-evaluated twin pool built from the same spec "
+            "over the same objects. Non-trivial = a probe was judged after >= 1 abandoned or faulted evaluation that had "
             "already delivered >= 1 row or fired its fault (campaign 'faults'), or after >= 1 complete evaluation "
             "of a query sharing a variable (campaign 'faultfree'); distinct = distinct (op kind, outcome) sequences")
     assumptions = [
@@ -79,6 +81,7 @@ class C04(Prop):
             return self._gen_the_enumerated(rng, tier)
         cfg = G.gen_config(rng, tier)
         cfg["kinds"] = ["list", "list", "tuple", "gen", "iterobj"]
+        cfg["allow_nodom"] = True
         region = campaign.split(":", 1)[1] if campaign.startswith("known:") else None
         if campaign in ("rules", "known:rule_tree_with_alternative_or_next"):
             cfg["vocab"] = [v for v in cfg["vocab"] if v not in ("forall", "kw", "nest", "flat")]
